@@ -551,6 +551,7 @@ func c12BlobFns(c *Ctx) {
 }
 
 var c12Canaries = []Canary{
+	{Name: "r4-no-rewrite-restarts", ExpectKey: "C12.R2#no-rewrite", Edits: []Edit{{File: "commands/command_migrate_import.go", Find: "root, err = rewriteTree(gf, db, root, file)", Repl: "root, err = rewriteTree(gf, db, commit.TreeID, file)"}}},
 	{Name: "omit-extra-headers", ExpectKey: "C12.R1#commit-field:ExtraHeaders", Edits: []Edit{{File: "git/githistory/rewriter.go", Find: "			ExtraHeaders: original.ExtraHeaders,\n", Repl: ""}}},
 	{Name: "committer-from-author", ExpectKey: "C12.R1#commit-field:Committer", Edits: []Edit{{File: "git/githistory/rewriter.go", Find: "			Committer:    original.Committer,", Repl: "			Committer:    original.Author,"}}},
 	{Name: "skip-symlink-entry", ExpectKey: "C12.R2#tree:one-entry-per-original-entry", Edits: []Edit{{File: "git/githistory/rewriter.go", Find: "		if entry.Filemode == 0120000 {\n			entries = append(entries, copyEntry(entry))\n			continue\n		}", Repl: "		if entry.Filemode == 0120000 {\n			continue\n		}"}}},
